@@ -121,6 +121,27 @@ func TestReplay(t *testing.T) {
 	}
 	rec := vstat.New(rf.Property, "replay")
 	defer rec.Flush(true)
+	if rf.Property == "C04" && rf.Part == "volley" {
+		var vsc Volley
+		vmsg := ""
+		if err := json.Unmarshal(rf.Scenario, &vsc); err != nil || vsc.Writers < 1 {
+			vmsg = fmt.Sprintf("bad scenario: %v", err)
+		} else {
+			vsc.Rounds *= 10
+			if _, err := runVolley(t, &vsc); err != nil {
+				vmsg = err.Error()
+			}
+		}
+		if vmsg != "" {
+			rec.AddViolation(json.RawMessage(rf.Scenario), rf.Kind, rf.Class, "%s", vmsg)
+			fmt.Println("REPLAY-FAIL:", vmsg)
+			t.Fail()
+			return
+		}
+		rec.Case(json.RawMessage(rf.Scenario), false, "replayed")
+		fmt.Println("REPLAY-OK")
+		return
+	}
 	if rf.Property == "C05" && rf.Part == "stress" {
 		var osc OnceStress
 		omsg := ""
@@ -235,6 +256,35 @@ func TestC05Stress(t *testing.T) {
 		rec.Case(sc, rounds >= 20 && sc.Hot > 1, labels...)
 		if err != nil {
 			rec.AddViolation(sc, "stress", "oracle", "%v", err)
+			t.Fail()
+			break
+		}
+	}
+	rec.Flush(true)
+}
+
+var volleyN = flag.Int("c04.volleys", 12, "number of volley workloads in TestC04Volley")
+var volleyRounds = flag.Int("c04.volleyrounds", 1500, "rounds per volley workload")
+
+// TestC04Volley: simultaneous writers against an idle STREAM subscriber, round after round (see volley.go).
+func TestC04Volley(t *testing.T) {
+	if !vstat.Enabled("C04") {
+		t.Skip()
+	}
+	rec := vstat.New("C04", "volley")
+	rec.SetRequested(*volleyN)
+	rec.Note("free-running part: workloads are a function of the seed, schedules are the real scheduler's; a replay re-runs the workload")
+	for i := 0; i < *volleyN; i++ {
+		sc := genVolley(*vstat.Seed*1_000_003+int64(i), *volleyRounds)
+		rec.Current(sc)
+		done, err := runVolley(t, sc)
+		labels := []string{"free-running", fmt.Sprintf("writers=%d", sc.Writers)}
+		if sc.Star {
+			labels = append(labels, "all-targets-subscriber")
+		}
+		rec.Case(sc, done >= 100 && sc.Writers >= 2, labels...)
+		if err != nil {
+			rec.AddViolation(sc, "volley", "oracle", "%v", err)
 			t.Fail()
 			break
 		}
